@@ -107,6 +107,38 @@ Theorem C02_numbering_outside :
 Proof. exact numbering_outside. Qed.
 Print Assumptions C02_numbering_outside.
 
+(* ---- in names, text and attribute values: a name, a text / attribute value without `${n}` tabstops
+   is the concatenation of its tokens' texts under the stack in force, so every `$` run in it is
+   replaced as C02_numbering_in_copy says (literals stay as written) *)
+Theorem C02_names_glued :
+  forall (env : cenv) (reps : list rep) (toks : list token),
+    clean_toks toks = true -> name_str env reps toks = flat_map (tok_str env reps) toks.
+Proof. exact name_str_flat. Qed.
+Print Assumptions C02_names_glued.
+
+Theorem C02_values_glued :
+  forall (env : cenv) (reps : list rep) (t : token) (r : list token),
+    clean_toks (t :: r) = true -> forallb (fun t => negb (is_tabstop t)) (t :: r) = true ->
+    value_toks env reps (t :: r) = [VStr (flat_map (tok_str env reps) (t :: r))].
+Proof. exact value_toks_flat. Qed.
+Print Assumptions C02_values_glued.
+
+Theorem C02_attribute_values_glued :
+  forall (env : cenv) (reps : list rep) (nt : token) (nr : list token) (vt : token) (vr : list token)
+         (expr mult : bool),
+    clean_toks (nt :: nr) = true -> clean_toks (vt :: vr) = true ->
+    forallb (fun t => negb (is_tabstop t)) (vt :: vr) = true ->
+    is_quote_tok vt None = false -> is_bracket vt (Some BExpr) (Some true) = false ->
+    aa_value (attr_of env reps (mkTAttr (Some (nt :: nr)) (Some (vt :: vr)) expr mult)) =
+    Some [VStr (flat_map (tok_str env reps) (vt :: vr))].
+Proof. exact attr_of_plain. Qed.
+Print Assumptions C02_attribute_values_glued.
+
+Theorem C02_literal_text :
+  forall (env : cenv) (reps : list rep) (t : token) (v : str), tk t = TLiteral v -> tok_str env reps t = v.
+Proof. exact tok_str_literal. Qed.
+Print Assumptions C02_literal_text.
+
 (* the pieces put together on a family: `x$..$@..*n` (name = a literal and one numbering token) unrolls
    to n elements named x<counter of copy 1> ... x<counter of copy n>, for every n >= 1, every width,
    direction and start value *)
